@@ -30,29 +30,29 @@ example : ¬ someDestinedFailed ⟨true, false, false, false⟩ ⟨.ok, .failure
 
 /-! ### exactly one final status -/
 
-/-- **Exactly one final status** for every request kind some path of the main
-    process can forward, whatever the proxies, the listener helpers and the
-    worker-level handlers answer — except the three excluded points, each of
-    which has its counterexample below:
-    * `CountRequests` (forwardable only through `LoadState` of a state file
-      that contains it) has no handler;
-    * a SoftStop is answered OK only when the session count reaches
-      `base_sessions_count` (`e.drained`), and its proxies must have answered
-      Processing (what they all do unless a socket deregistration fails);
-    * proxies answer Processing to the stop verbs only. -/
+/-- **Exactly one final status** for EVERY request kind (all 55 `RequestType`
+    variants and a request without type), whatever the proxies, the listener
+    helpers and the worker-level handlers answer. Hypotheses = what the callees
+    do as coded: proxies answer Processing to the stop verbs and only to them
+    (unless a socket deregistration fails, see `_2_finals`). The one genuinely
+    excluded point: a SoftStop is answered OK only when the session count reaches
+    `base_sessions_count` (`e.drained`) — counterexamples below. -/
 theorem C08_exactly_one_final_partial (k : Kind) (e : Env)
-    (hfw : forwardable k = true) (hne : k ≠ .countRequests)
-    (hproc : k ≠ .softStop → NoProcessing e.proxies)
-    (hsoft : k = .softStop → e.drained = true ∧ aggregate (dests k) e.proxies = some .processing) :
+    (hproc : k ≠ .softStop → k ≠ .hardStop → NoProcessing e.proxies)
+    (hstop : k = .softStop ∨ k = .hardStop → aggregate (dests k) e.proxies = some .processing)
+    (hsoft : k = .softStop → e.drained = true) :
     (finals (respond k e)).length = 1 := by
   cases k
-  case countRequests => exact absurd rfl hne
-  case hardStop => simp [respond, finals]
-  case returnListenSockets => simp [respond, finals_st]
+  case hardStop =>
+    have ha := hstop (Or.inr rfl)
+    show (finals ((fanout .hardStop e ++ listenerTail .hardStop e) ++ [.ok])).length = 1
+    simp [fanout, ha, listenerTail, finals]
   case softStop =>
-    obtain ⟨hd, ha⟩ := hsoft rfl
+    have ha := hstop (Or.inl rfl)
+    have hd := hsoft rfl
     show (finals ((fanout .softStop e ++ listenerTail .softStop e) ++ (if e.drained then [.ok] else []))).length = 1
     simp [fanout, ha, hd, listenerTail, finals]
+  case returnListenSockets => simp [respond, finals_st]
   case configureMetrics => simp [respond, notify, finals_st]
   case queryMetrics => simp [respond, notify, finals_st]
   case setMetricDetail => simp [respond, notify, finals_st]
@@ -61,28 +61,21 @@ theorem C08_exactly_one_final_partial (k : Kind) (e : Env)
   case setMaxConnectionsPerIp => simp [respond, notify, finals]
   case queryMaxConnectionsPerIp => simp [respond, notify, finals]
   case queryClustersByDomain => simp [respond, notify, finals]
-  case queryClusterById =>
-    have hp := hproc (by decide)
-    show (finals ([.ok] ++ (fanout .queryClusterById e ++ listenerTail .queryClusterById e))).length = 1
-    rw [finals_append, List.length_append, generic_finals _ e hp]
-    decide
+  case queryClusterById => simp [respond, notify, finals]
   case queryCertificatesFromWorkers =>
-    have hp := hproc (by decide)
+    have hp := hproc (by decide) (by decide)
+    show (finals (if e.fingerprint then [st e.workerOk] else
+            fanout .queryCertificatesFromWorkers e ++ listenerTail .queryCertificatesFromWorkers e)).length = 1
     cases hf : e.fingerprint
-    · show (finals (if e.fingerprint then [st e.workerOk] else
-              fanout .queryCertificatesFromWorkers e ++ listenerTail .queryCertificatesFromWorkers e)).length = 1
-      rw [hf]; simp only [Bool.false_eq_true, if_false]
+    · simp only [Bool.false_eq_true, if_false]
       rw [generic_finals _ e hp]; decide
-    · show (finals (if e.fingerprint then [st e.workerOk] else
-              fanout .queryCertificatesFromWorkers e ++ listenerTail .queryCertificatesFromWorkers e)).length = 1
-      rw [hf]; simp [finals_st]
+    · simp [finals_st]
   case addCluster =>
-    have hp := hproc (by decide)
+    have hp := hproc (by decide) (by decide)
+    show (finals (if e.hcValid then fanout .addCluster e ++ listenerTail .addCluster e else [.failure])).length = 1
     cases hv : e.hcValid
-    · show (finals (if e.hcValid then fanout .addCluster e ++ listenerTail .addCluster e else [.failure])).length = 1
-      rw [hv]; simp [finals]
-    · show (finals (if e.hcValid then fanout .addCluster e ++ listenerTail .addCluster e else [.failure])).length = 1
-      rw [hv]; simp only [if_true]
+    · simp [finals]
+    · simp only [if_true]
       rw [generic_finals _ e hp]; decide
   case setHealthCheck =>
     show (finals (if e.hcValid then [.ok] else [.failure])).length = 1
@@ -90,48 +83,47 @@ theorem C08_exactly_one_final_partial (k : Kind) (e : Env)
   case removeHealthCheck => simp [respond, notify, notifyProxys, finals]
   case addBackend => simp [respond, notify, notifyProxys, finals]
   case removeBackend => simp [respond, notify, notifyProxys, finals]
-  all_goals first
-    | exact absurd hfw (by decide)
-    | (have hp := hproc (by decide)
-       show (finals (fanout _ e ++ listenerTail _ e)).length = 1
-       rw [generic_finals _ e hp]; decide)
+  all_goals
+    (have hp := hproc (by decide) (by decide)
+     show (finals (fanout _ e ++ listenerTail _ e)).length = 1
+     rw [generic_finals _ e hp]; decide)
 
 /-- the hypotheses are satisfiable: a RemoveListener whose TCP proxy fails -/
 example : (finals (respond .removeListener
     ⟨true, false, true, ⟨.ok, .ok, .failure, .ok⟩, true, some .tcp, false⟩)) = [.failure] := by decide
 
-/-- excluded point 1: `CountRequests` passes `ConfigState::dispatch` (so
-    `load_state` scatters it) and the worker pushes nothing for it -/
-theorem C08_exactly_one_final_counterexample_unanswered :
-    forwardable .countRequests = true ∧ scatterDirect .countRequests = false ∧
-    ∀ e, respond .countRequests e = [] := by
-  refine ⟨by decide, by decide, ?_⟩
-  intro e
-  show fanout .countRequests e ++ listenerTail .countRequests e = []
-  rw [fanout_nil _ e (by decide)]; rfl
+/-- regression (F16, repaired in /repo 2ea09e9): request kinds nothing handles —
+    `CountRequests`, which `load_state` can forward, the main-only kinds and a
+    request without type — are refused with one Failure instead of being ignored -/
+example (e : Env) : respond .countRequests e = [.failure] ∧ respond .none e = [.failure] ∧
+    respond .listWorkers e = [.failure] := by
+  refine ⟨?_, ?_, ?_⟩
+  · show fanout .countRequests e ++ listenerTail .countRequests e = [.failure]
+    rw [fanout_nil _ e (by decide)]
+    simp [listenerTail, aggregate_none (dests .countRequests) e.proxies (by decide)]
+  · show fanout .none e ++ listenerTail .none e = [.failure]
+    rw [fanout_nil _ e (by decide)]
+    simp [listenerTail, aggregate_none (dests .none) e.proxies (by decide)]
+  · show fanout .listWorkers e ++ listenerTail .listWorkers e = [.failure]
+    rw [fanout_nil _ e (by decide)]
+    simp [listenerTail, aggregate_none (dests .listWorkers) e.proxies (by decide)]
 
-/-- the kinds that get no response at all are exactly: the kinds no path of the
-    main process forwards, and `CountRequests` -/
-theorem C08_unanswered_iff (k : Kind) (e : Env) (hk : k ≠ .softStop) (hp : NoProcessing e.proxies) :
-    respond k e = [] ↔ (forwardable k = false ∨ k = .countRequests) := by
-  constructor
+/-- no request is left without any response (SoftStop: at least its Processing) -/
+theorem C08_never_unanswered (k : Kind) (e : Env)
+    (hproc : k ≠ .softStop → k ≠ .hardStop → NoProcessing e.proxies)
+    (hstop : k = .softStop ∨ k = .hardStop → aggregate (dests k) e.proxies = some .processing) :
+    respond k e ≠ [] := by
+  by_cases hs : k = .softStop
+  · subst hs
+    have ha := hstop (Or.inl rfl)
+    show (fanout .softStop e ++ listenerTail .softStop e) ++ (if e.drained then [.ok] else []) ≠ []
+    simp [fanout, ha]
   · intro h
-    by_cases hc : k = .countRequests
-    · exact Or.inr hc
-    · left
-      cases hf : forwardable k
-      · rfl
-      · have := C08_exactly_one_final_partial k e hf hc (fun _ => hp) (fun h' => absurd h' hk)
-        rw [h] at this; simp [finals] at this
-  · intro h
-    cases k <;> first
-      | (show fanout _ e ++ listenerTail _ e = []
-         rw [fanout_nil _ e (by decide)]; rfl)
-      | (rcases h with h | h
-         · exact absurd h (by decide)
-         · exact absurd h (by decide))
+    have := C08_exactly_one_final_partial k e hproc hstop (fun h' => absurd h' hs)
+    rw [h] at this
+    simp [finals] at this
 
-/-- excluded point 2: a SoftStop whose session count never reaches
+/-- excluded point: a SoftStop whose session count never reaches
     `base_sessions_count` is never answered -/
 theorem C08_exactly_one_final_counterexample_undrained :
     finals (respond .softStop ⟨true, false, true, stopResults false, true, none, false⟩) = [] := by
@@ -161,37 +153,50 @@ example : (run WState.init [Op.addListener .http 0 true, .activate (some .http) 
     .deactivate (some .http) 0, .removeListener (some .http) 0, .plain .softStop true]).2.map (·.resp)
     = [[.ok], [.ok], [.ok], [.ok], [.processing, .ok]] := by decide
 
-/-- excluded point 2b: as coded, a SoftStop whose proxy reports a failure gets
-    that Failure at once and the OK when drained — two final statuses -/
+/-- as coded, a stop verb whose proxy reports a failure (a socket deregistration
+    error) gets that Failure and the OK — two final statuses -/
 theorem C08_exactly_one_final_counterexample_2_finals :
     finals (respond .softStop
       ⟨true, false, true, ⟨.failure, .processing, .processing, .processing⟩, true, none, true⟩)
+      = [.failure, .ok] ∧
+    finals (respond .hardStop
+      ⟨true, false, true, ⟨.failure, .processing, .ok, .ok⟩, true, none, false⟩)
       = [.failure, .ok] := by decide
 
-/-- for every batch of requests the worker reads in one go and that contains no
-    HardStop, each forwardable request gets exactly one final status -/
-theorem C08_batch_one_final_partial (rs : List (Kind × Env))
-    (hno : ∀ r ∈ rs, r.1 ≠ .hardStop)
-    (hok : ∀ r ∈ rs, forwardable r.1 = true ∧ r.1 ≠ .countRequests ∧
-       (r.1 ≠ .softStop → NoProcessing r.2.proxies) ∧
-       (r.1 = .softStop → r.2.drained = true ∧ aggregate (dests r.1) r.2.proxies = some .processing)) :
-    ∀ l ∈ batchDelivered rs, (finals l).length = 1 := by
-  have hnone : rs.findIdx? (fun r => r.1 == .hardStop) = none := by
-    rw [List.findIdx?_eq_none_iff]
-    intro r hr
-    simpa using hno r hr
-  intro l hl
-  simp only [batchDelivered, hnone, List.mem_map] at hl
-  obtain ⟨r, hr, rfl⟩ := hl
-  obtain ⟨h1, h2, h3, h4⟩ := hok r hr
-  exact C08_exactly_one_final_partial r.1 r.2 h1 h2 h3 h4
+/-- the admissibility hypotheses of `C08_exactly_one_final_partial` for one request -/
+def Admissible (k : Kind) (e : Env) : Prop :=
+  (k ≠ .softStop → k ≠ .hardStop → NoProcessing e.proxies) ∧
+  (k = .softStop ∨ k = .hardStop → aggregate (dests k) e.proxies = some .processing) ∧
+  (k = .softStop → e.drained = true)
 
-/-- excluded point 3: a request read in the same batch as a HardStop that
-    follows it is never answered (its response dies in the queue) -/
-theorem C08_batch_one_final_counterexample :
+/-- **Batches.** Every request the worker reads in one go — up to and including a
+    HardStop, behind which nothing is read any more — gets exactly one final
+    status (no hypothesis on the position of the HardStop: its handler flushes
+    the queued responses before its own OK). -/
+theorem C08_batch_one_final (rs : List (Kind × Env))
+    (hok : ∀ r ∈ rs, Admissible r.1 r.2) :
+    ∀ l ∈ batchDelivered rs, (finals l).length = 1 := by
+  intro l hl
+  have key : ∃ r ∈ rs, l = respond r.1 r.2 := by
+    unfold batchDelivered at hl
+    split at hl
+    · simp only [List.mem_map] at hl
+      obtain ⟨r, hr, rfl⟩ := hl
+      exact ⟨r, List.mem_of_mem_take hr, rfl⟩
+    · simp only [List.mem_map] at hl
+      obtain ⟨r, hr, rfl⟩ := hl
+      exact ⟨r, hr, rfl⟩
+  obtain ⟨r, hr, rfl⟩ := key
+  obtain ⟨h1, h2, h3⟩ := hok r hr
+  exact C08_exactly_one_final_partial r.1 r.2 h1 h2 h3
+
+/-- regression (repaired in /repo de8b744): a request read in the same batch as a
+    HardStop that follows it keeps its answer -/
+example :
     batchDelivered [(.status, ⟨true, false, true, allOk, true, none, false⟩),
-                    (.hardStop, ⟨true, false, true, stopResults true, true, none, false⟩)]
-      = [[], [.ok]] := by decide
+                    (.hardStop, ⟨true, false, true, stopResults true, true, none, false⟩),
+                    (.status, ⟨true, false, true, allOk, true, none, false⟩)]
+      = [[.ok], [.processing, .ok]] := by decide
 
 /-! ### the final status is Failure iff ... (as coded) -/
 
@@ -210,10 +215,11 @@ def failureCond (k : Kind) (e : Env) : Prop :=
     match e.listenerType with
     | some t => proxyOf t e.proxies = .failure
     | none => True
-  | .hardStop | .logging | .queryClustersHashes | .queryClusterById | .queryClustersByDomain
+  | .logging | .queryClustersHashes | .queryClusterById | .queryClustersByDomain
   | .setMaxConnectionsPerIp | .queryMaxConnectionsPerIp | .removeHealthCheck | .addBackend
   | .removeBackend => False
-  | _ => someDestinedFailed (dests k) e.proxies
+  -- fan-out kinds: a destined proxy failed; kinds nothing handles: always refused
+  | _ => someDestinedFailed (dests k) e.proxies ∨ hasDest (dests k) = false
 
 theorem st_eq_failure (b : Bool) : st b = .failure ↔ b = false := by cases b <;> simp [st]
 
@@ -231,23 +237,42 @@ theorem fanout_failure (k : Kind) (e : Env) (hd : hasDest (dests k) = true)
     simp [finals_single, hn]
   | none => simp [h] at hs
 
+theorem generic_failure_dest (k : Kind) (e : Env) (hd : hasDest (dests k) = true)
+    (hp : NoProcessing e.proxies)
+    (ht : listenerTail k e = if (aggregate (dests k) e.proxies).isSome then [] else [.failure]) :
+    finals (fanout k e ++ listenerTail k e) = [.failure] ↔
+      (someDestinedFailed (dests k) e.proxies ∨ hasDest (dests k) = false) := by
+  have hs := aggregate_isSome (dests k) e.proxies
+  rw [hd] at hs
+  rw [ht, hs]
+  simp only [if_true, List.append_nil, hd, Bool.true_eq_false, or_false]
+  exact fanout_failure k e hd hp
+
+theorem generic_failure_nodest (k : Kind) (e : Env) (hd : hasDest (dests k) = false)
+    (ht : listenerTail k e = if (aggregate (dests k) e.proxies).isSome then [] else [.failure]) :
+    finals (fanout k e ++ listenerTail k e) = [.failure] ↔
+      (someDestinedFailed (dests k) e.proxies ∨ hasDest (dests k) = false) := by
+  rw [fanout_nil k e hd, ht, aggregate_none _ _ hd]
+  simp [finals, hd]
+
 /-- **The final status is Failure iff** the worker-level handler failed / the
     health check is invalid / the listener step failed / some destined proxy
-    failed — per kind, as coded (`failureCond`). -/
+    failed / nothing handles the request kind — per kind, as coded
+    (`failureCond`). The stop verbs are covered by `C08_exactly_one_final_partial`
+    (their only final status is the OK). -/
 theorem C08_final_is_failure_iff (k : Kind) (e : Env)
-    (hfw : forwardable k = true) (hne : k ≠ .countRequests) (hk : k ≠ .softStop)
-    (hp : NoProcessing e.proxies) :
+    (hk : k ≠ .softStop) (hk' : k ≠ .hardStop) (hp : NoProcessing e.proxies) :
     finals (respond k e) = [.failure] ↔ failureCond k e := by
   cases k
-  case countRequests => exact absurd rfl hne
   case softStop => exact absurd rfl hk
-  case hardStop => simp [respond, finals, failureCond]
+  case hardStop => exact absurd rfl hk'
   case returnListenSockets => simp [respond, finals_st, failureCond, st_eq_failure]
   case configureMetrics => simp [respond, notify, finals_st, failureCond, st_eq_failure]
   case queryMetrics => simp [respond, notify, finals_st, failureCond, st_eq_failure]
   case setMetricDetail => simp [respond, notify, finals_st, failureCond, st_eq_failure]
   case logging => simp [respond, notify, finals, failureCond]
   case queryClustersHashes => simp [respond, notify, finals, failureCond]
+  case queryClusterById => simp [respond, notify, finals, failureCond]
   case setMaxConnectionsPerIp => simp [respond, notify, finals, failureCond]
   case queryMaxConnectionsPerIp => simp [respond, notify, finals, failureCond]
   case queryClustersByDomain => simp [respond, notify, finals, failureCond]
@@ -257,25 +282,23 @@ theorem C08_final_is_failure_iff (k : Kind) (e : Env)
   case setHealthCheck =>
     show finals (if e.hcValid then [.ok] else [.failure]) = [.failure] ↔ e.hcValid = false
     cases e.hcValid <;> simp [finals]
-  case queryClusterById =>
-    show finals ([.ok] ++ (fanout .queryClusterById e ++ listenerTail .queryClusterById e)) = [.failure] ↔ False
-    rw [fanout_nil _ e (by decide)]
-    simp [listenerTail, finals]
   case queryCertificatesFromWorkers =>
     show finals (if e.fingerprint then [st e.workerOk] else
           fanout .queryCertificatesFromWorkers e ++ listenerTail .queryCertificatesFromWorkers e) = [.failure]
         ↔ (if e.fingerprint then e.workerOk = false else someDestinedFailed (dests .queryCertificatesFromWorkers) e.proxies)
     cases hf : e.fingerprint
-    · simp only [Bool.false_eq_true, if_false, listenerTail, List.append_nil]
-      exact fanout_failure _ e (by decide) hp
+    · simp only [Bool.false_eq_true, if_false]
+      have := generic_failure_dest .queryCertificatesFromWorkers e (by decide) hp rfl
+      simpa [show hasDest (dests .queryCertificatesFromWorkers) = true by decide] using this
     · simp [finals_st, st_eq_failure]
   case addCluster =>
     show finals (if e.hcValid then fanout .addCluster e ++ listenerTail .addCluster e else [.failure]) = [.failure]
         ↔ (e.hcValid = false ∨ someDestinedFailed (dests .addCluster) e.proxies)
     cases hv : e.hcValid
     · simp [finals]
-    · simp only [if_true, listenerTail, List.append_nil, Bool.true_eq_false, false_or]
-      exact fanout_failure _ e (by decide) hp
+    · simp only [if_true, Bool.true_eq_false, false_or]
+      have := generic_failure_dest .addCluster e (by decide) hp rfl
+      simpa [show hasDest (dests .addCluster) = true by decide] using this
   case removeListener =>
     show finals (fanout .removeListener e ++ listenerTail .removeListener e) = [.failure] ↔ _
     rw [fanout_nil _ e (by decide)]
@@ -286,17 +309,16 @@ theorem C08_final_is_failure_iff (k : Kind) (e : Env)
       have := proxyOf_noProcessing t e.proxies hp
       simp [finals_single, this]
   all_goals first
-    | exact absurd hfw (by decide)
     | (show finals (fanout _ e ++ listenerTail _ e) = [.failure] ↔ _
        rw [fanout_nil _ e (by decide)]
-       simp [listenerTail, failureCond, finals_st, st_eq_failure])
-    | (show finals (fanout _ e ++ listenerTail _ e) = [.failure] ↔ _
-       simp only [listenerTail, List.append_nil, failureCond]
-       exact fanout_failure _ e (by decide) hp)
+       simp [listenerTail, failureCond, finals_st, st_eq_failure]
+       done)
+    | exact generic_failure_dest _ e (by decide) hp rfl
+    | exact generic_failure_nodest _ e (by decide) rfl
 
 example : failureCond .addHttpFrontend ⟨true, false, true, ⟨.failure, .ok, .ok, .ok⟩, true, none, false⟩ := by
-  show someDestinedFailed _ _
-  decide
+  show someDestinedFailed _ _ ∨ _
+  left; decide
 
 /-- "Failure iff the target is missing" is *not* what the code does: removing a
     backend nobody added, and removing an HTTP listener that does not exist,
@@ -331,7 +353,7 @@ theorem dispatchView_unreached (v : View) (op : Op)
   | removeFront tls f' b1 b2 b3 => cases tls <;> simp [reachesDispatch, Op.kind] at h
   | addL4Front udp a c => cases udp <;> simp [reachesDispatch, Op.kind] at h
   | removeL4Front udp a c => cases udp <;> simp [reachesDispatch, Op.kind] at h
-  | addCluster c hv => simp [reachesDispatch, Op.kind] at h
+  | addCluster c hv tv => simp [reachesDispatch, Op.kind] at h
   | removeCluster c => simp [reachesDispatch, Op.kind] at h
   | addBackend c b a => simp [reachesDispatch, Op.kind] at h
   | removeBackend c b a => simp [reachesDispatch, Op.kind] at h
@@ -392,16 +414,16 @@ theorem C08_view_converges (ops : List Op) (s : WState) (hs : s.stopped = false)
 
 /-- non-vacuity: a sequence with accepted and refused commands -/
 example :
-    let ops := [Op.addCluster 1 true, .removeBackend 1 0 0, .addBackend 1 0 0,
+    let ops := [Op.addCluster 1 true true, .removeBackend 1 0 0, .addBackend 1 0 0,
                 .addFront false ⟨0, 7, 1⟩ false false false false, .plain .status true]
-    forwarded View.empty ops = [Op.addCluster 1 true, .addBackend 1 0 0,
+    forwarded View.empty ops = [Op.addCluster 1 true true, .addBackend 1 0 0,
                 .addFront false ⟨0, 7, 1⟩ false false false false, .plain .status true] ∧
     (runState WState.init (forwarded View.empty ops)).view.httpFronts = [⟨0, 7, 1⟩] := by decide
 
 /-- the main process forwards what its state accepted even if the worker then
     answers Failure, and the worker's view takes the command all the same: -/
 theorem C08_view_matches_behaviour_counterexample :
-    let ops := [Op.addCluster 0 true, .addFront false ⟨0, 5, 0⟩ false false false false,
+    let ops := [Op.addCluster 0 true true, .addFront false ⟨0, 5, 0⟩ false false false false,
                 .addListener .http 0 true, .activate (some .http) 0]
     forwarded View.empty ops = ops ∧
     (run WState.init ops).2.map (·.resp) = [[.ok], [.failure], [.ok], [.ok]] ∧
@@ -410,7 +432,7 @@ theorem C08_view_matches_behaviour_counterexample :
 
 /-- when the worker's answers agree with the main process' verdicts the two coincide -/
 example :
-    let ops := [Op.addCluster 0 true, .addListener .http 0 true, .activate (some .http) 0,
+    let ops := [Op.addCluster 0 true true, .addListener .http 0 true, .activate (some .http) 0,
                 .addFront false ⟨0, 5, 0⟩ false false false false]
     forwarded View.empty ops = ops ∧
     (run WState.init ops).2.map (·.resp) = [[.ok], [.ok], [.ok], [.ok]] ∧
